@@ -91,7 +91,8 @@ class E:
         if isinstance(fv, BoundMethod):
             fv = fv.func
         assert isinstance(fv, FuncVal), f"{qual} is not a function"
-        loops = sorted((n for n in ast.walk(fv.node) if isinstance(n, ast.For)), key=lambda n: (n.lineno, n.col_offset))
+        loops = sorted((n for n in ast.walk(fv.node) if isinstance(n, (ast.For, ast.While))),
+                       key=lambda n: (n.lineno, n.col_offset))
         node = loops[ordinal]
         env = Env(dict(local_vars), parent=fv.env, owner=fv.owner)
         self.I.exec_block(node.body, env)
